@@ -349,7 +349,7 @@ func c03Walk(driver string, depth int) vh.Unit {
 					C := w.ids[0]
 					n, _ := w.pw.Store.GetNode(store.NodeID(C.NodeID))
 					peers, _ := w.pw.Store.NodePeers(store.NodeID(C.NodeID))
-					return fmt.Sprintf("%d|%d|%s|%d", vsched.Elapsed(), n.LastSeen.Sub(vsched.Base()), spendable(w.pw, C.NodeID), len(peers))
+					return fmt.Sprintf("%d|%d|%s|%d|%s", vsched.Elapsed(), n.LastSeen.Sub(vsched.Base()), spendable(w.pw, C.NodeID), len(peers), vh.StateKey(w.pw.Raw))
 				},
 			})
 		}
